@@ -1,6 +1,10 @@
 //! One engine per property.
 use crate::explore::{Ctx, Meta, Report, Tier};
 
+pub mod buildcheck;
+pub mod c01;
+pub mod c02;
+pub mod c16;
 pub mod c15;
 
 pub struct Plan {
@@ -14,7 +18,10 @@ pub struct Plan {
 
 pub fn meta(id: &str) -> Option<Meta> {
     Some(match id {
+        "C01" => c01::meta(),
+        "C02" => c02::meta(),
         "C15" => c15::meta(),
+        "C16" => c16::meta(),
         _ => return None,
     })
 }
@@ -31,7 +38,10 @@ pub fn plan(id: &str, tier: Tier) -> Plan {
 /// Executed inside a worker process (single-threaded)
 pub fn run_worker(id: &str, ctx: &Ctx, rep: &mut Report) {
     match id {
+        "C01" => c01::run(ctx, rep),
+        "C02" => c02::run(ctx, rep),
         "C15" => c15::run(ctx, rep),
+        "C16" => c16::run(ctx, rep),
         _ => rep.machinery(format!("no engine for {id}")),
     }
 }
@@ -41,5 +51,15 @@ pub fn run_parent(id: &str, tier: Tier, seed: u64) -> Report {
     let p = plan(id, tier);
     match id {
         _ => crate::explore::run_sharded(id, "", tier, seed, p.cap_s, p.shards, None),
+    }
+}
+
+/// Re-execute one recorded case; Ok(Some(msg)) = still violates
+pub fn replay(id: &str, case: &serde_json::Value) -> Result<Option<String>, String> {
+    match id {
+        "C01" => c01::replay(case),
+        "C02" => c02::replay(case),
+        "C16" => c16::replay(case),
+        _ => Err(format!("engine {id} has no single-case replay; rerun the check")),
     }
 }
